@@ -68,6 +68,7 @@ def shared_instances(ctx, kp, order_name, spellings):
     not depend on what the instance converted before."""
     imp = kp.HumdrumPitchImporter()
     exp = kp.HumdrumPitchExporter()
+    kept = []
     for (letter, alt, octave) in spellings:
         s = I.spell(letter, alt, octave)
         ctx.ev()
@@ -86,6 +87,28 @@ def shared_instances(ctx, kp, order_name, spellings):
         if o1 != s or o2 != s or (p.name, p.octave) != before:
             ctx.violation('shared-instance', f'[{order_name}] a reused exporter wrote {s!r} as {o1!r} then {o2!r} (depends on what it '
                           f'exported before)', {'spelling': s, 'order': order_name})
+        kept.append((s, p, before))
+    # pitch objects handed out earlier must still be what they were (later imports/exports must not touch them)
+    ids = set()
+    for s, p, before in kept:
+        ctx.ev()
+        ctx.mon('kept_pitch_rechecks')
+        ids.add(id(p))
+        if (p.name, p.octave) != before:
+            ctx.violation('shared-instance', f'[{order_name}] the pitch imported from {s!r} was {before} and is now {(p.name, p.octave)}: a '
+                          f'later call on the same importer/exporter changed it', {'spelling': s, 'order': order_name})
+            break
+        try:
+            o3 = exp.export_pitch(p)
+        except Exception as e:
+            o3 = f'{type(e).__name__}: {e}'
+        if o3 != s:
+            ctx.violation('shared-instance', f'[{order_name}] the pitch imported from {s!r} exports as {o3!r} after the other spellings '
+                          f'went through the same importer/exporter', {'spelling': s, 'order': order_name})
+            break
+    if len(ids) != len(kept):
+        ctx.violation('shared-instance', f'[{order_name}] {len(kept)} imports returned only {len(ids)} distinct pitch objects',
+                      {'order': order_name})
 
 
 def run(ctx: Ctx):
